@@ -84,6 +84,12 @@ func genCase(w *bufio.Writer, rng *rand.Rand, kind string, k int) {
 	case "pfx":
 		budget := []int{30, 60, 120, 250}[rng.Intn(4)]
 		genPfxCase(w, rng, k, budget)
+	case "fib":
+		budget := []int{15, 40, 80, 160}[rng.Intn(4)]
+		genFibCase(w, rng, k, budget)
+	case "net":
+		budget := []int{20, 50, 100}[rng.Intn(3)]
+		genNetCase(w, rng, k, budget)
 	}
 }
 
@@ -92,5 +98,9 @@ func replayCase(w *bufio.Writer, ops []string) {
 	switch h[1] {
 	case "pfx":
 		replayPfxCase(w, ops)
+	case "fib":
+		replayFibCase(w, ops)
+	case "net":
+		replayNetCase(w, ops)
 	}
 }
